@@ -23,7 +23,7 @@ CLAIMED = {
     "C11": ("Every point of a stated double lattice (all binades x structured mantissas, windows at every switch point, k*pi/2 +- ulps up to 2^900, gamma poles) in two stream orders on each architecture, long double reference with MPFR arbiter; the coverage statement is about this lattice only.", "6 C11, 8.2", "xvmath"),
     "C12": ("The special-operand table of the property (NaN, domain errors, poles, limits, identities) is placed in every lane among every companion class on each architecture; the symmetry/identity relations (odd, even, sincos, fabs/abs, rint/nearbyint, pow(x,0)) are checked bit-for-bit on every point of the unary argument spaces (thorough: all 2^32 float32 arguments).", "6 C12", "xvmath"),
     "C13": ("Every (subject operand, lane position, companion class) triple of stated finite alphabets is executed next to the broadcast batch of the same subject on each architecture: bit-identity for the exact operations of C01-C08, same special-value class and accuracy bound for the elementary functions, with companion classes on both sides of every whole-batch any()/all() threshold.", "6 C13", "xvdrive+xvmath"),
-    "C14": ("For every argument of the C10/C11 spaces and every architecture the number of iterations of the data-dependent loops of one call (counted through the XSIMD_VERIF_LOOP_TICK hook) is compared with a frozen per-function constant; calls are aborted after 1000 iterations, and a watchdog catches any call that does not return within 30 s (loops added without a tick).", "6 C14, 8.3", "xvmath"),
+    "C14": ("For every argument of the C10/C11 spaces and every architecture the number of iterations of the data-dependent loops of one call (counted through the XSIMD_VERIF_LOOP_TICK hook) is compared with a frozen per-function constant; calls are aborted after 1000 iterations, and a watchdog catches any call that does not return within 30 s (loops added without a tick). All data-dependent loops found by a source audit are hooked: the seven gamma loops, the four loops of the scalar Payne-Hanek reduction behind sin/cos/tan for huge arguments, and the square-and-multiply loop of pow(x, integer), which is explored over 40 exponents (incl. the extremes) of six integer types.", "6 C14, 8.3", "xvmath"),
     "C15": ("All 5 242 880 hardware-presentable configurations of the CPUID feature bits and OS states the detector reads are injected and the availability flags compared with the property's decision model (exhaustive); the dispatcher is instantiated for about 600 generated architecture lists and run under every relevant availability vector.", "6 C15", "xvcpuid"),
     "C18": ("All allocate/deallocate histories up to length 5 (thorough 6) over a 9-symbol alphabet, for 40 (T, Align) instantiations, executed on the real allocator under AddressSanitizer with a model of live blocks checked after every step; every subset of <= 2 injected posix_memalign failures per history; complete enumeration of the size-overflow window and of the alignment predicates over their residues.", "6 C18", "xvalloc"),
     "C16": ("Every operand tuple of a stated log-polar grid (all axes and branch cuts with both zero signs, +-1 ulp off the axes) for the arithmetic, fused forms, comparisons, accessors and the claimed complex functions is executed on each architecture and compared componentwise with std::complex<long double> within 8 / 32 eps of max(|result|,1); the coverage statement is about this grid.", "6 C16, 5.1", "xvmath"),
